@@ -8,7 +8,7 @@ from .runner import Plan
 class C09Plan(Plan):
     prop = "C09"
     oracles = ("replica",)
-    runs = {"quick": 80_000, "thorough": 4_000_000}
+    runs = {"quick": 50_000, "thorough": 4_000_000}
     rule = ("each run = seeded world (expression DAG with shared node objects, tripwire sub-expressions) + "
             "2-4 logical clients whose public-API operations are interleaved by the seeded scheduler; "
             "after every operation the same operation is performed on freshly built, never-used copies and "
@@ -25,6 +25,8 @@ class C09Plan(Plan):
 
     uses_pristine = True
     PRISTINE_EVERY = 20
+    SESSION_EVERY = 100
+    SESSION_LEN = 30
 
     def gen(self, rng, tier, index):
         base = None
@@ -33,7 +35,12 @@ class C09Plan(Plan):
         if tier == "thorough" and index % 7 == 3:
             base = {"n_steps": (25, 60), "n_nodes": (10, 40)}
         scn = gen.gen_scenario(rng, base)
-        if index % self.PRISTINE_EVERY == 7:
+        if index % self.SESSION_EVERY == 53:
+            # a long session: SESSION_LEN unrelated scenarios executed first in the same pristine process,
+            # then this one, whose every step is compared with a reference from a process that ran nothing
+            scn["prefix"] = [gen.gen_scenario(rng, {"n_steps": (8, 24)}) for _ in range(self.SESSION_LEN)]
+            scn["pristine"] = True
+        elif index % self.PRISTINE_EVERY == 7:
             # process boundary owned by the simulator: live history in one forked pristine process,
             # every reference in another one (sim/pristine.py)
             scn["pristine"] = True
@@ -57,7 +64,7 @@ PLANS = {"C09": C09Plan()}
 class C10Plan(Plan):
     prop = "C10"
     oracles = ("snapshot",)
-    runs = {"quick": 40_000, "thorough": 1_500_000}
+    runs = {"quick": 30_000, "thorough": 1_500_000}
     rule = ("same simulator as C09 with a workload biased towards rewriting (simplification, as_expression on all "
             "routes, early objects, new expressions built from library-returned ones).  Every pooled object "
             "(user-built expression node, Point, derivative object, every expression the library returned) is "
@@ -98,7 +105,7 @@ PLANS["C10"] = C10Plan()
 class C06Plan(Plan):
     prop = "C06"
     oracles = ()
-    runs = {"quick": 200_000, "thorough": 5_000_000}
+    runs = {"quick": 100_000, "thorough": 5_000_000}
     rule = ("each run keeps long-lived derivative objects of every kind (Partial / Derivative / Differential early and "
             "late, components, located differentials, variable as object or name) for 1-3 target expressions that share "
             "node objects, and interleaves at / component / component_at / at(p).component / as_expression / == calls on "
